@@ -14,6 +14,7 @@ type ExpSchema struct {
 	Props    map[string][]string // JSON name -> acceptable schema kinds (struct)
 	Required []string            // struct
 	AllOf    []string            // embedded struct names (struct)
+	Docs     map[string]string   // JSON name -> the field's own doc comment (struct); a property may carry it or nothing, never another field's
 	Values   []string            // enum constants as written (string form)
 	Base     string              // enum / alias underlying JSON type
 }
@@ -458,6 +459,27 @@ func (b *typeBuilder) composites() {
 	}
 }
 
+// fieldDocs: several fields of the same special type (time.Time, []byte) and of plain types, each with a doc comment
+// of its own, one of them deprecated: what a property says beyond its type comes from its own field only.
+func (b *typeBuilder) fieldDocs() {
+	for _, usage := range []string{"return", "body"} {
+		id := b.nextID()
+		decl := "type Doc" + id + " struct {\n" +
+			"\t// first stamp\n\tT1 time.Time `json:\"t1\"`\n" +
+			"\t// second stamp\n\t// @Deprecated\n\tT2 time.Time `json:\"t2\"`\n" +
+			"\t// first blob\n\tB1 []byte `json:\"b1\"`\n" +
+			"\t// second blob\n\tB2 []byte `json:\"b2\" validate:\"required\"`\n" +
+			"\t// first word\n\tS1 string `json:\"s1\"`\n" +
+			"\t// second word\n\tS2 string `json:\"s2\" validate:\"oneof=a b\"`\n" +
+			"\tT3 time.Time `json:\"t3\"`\n\tB3 []byte `json:\"b3\"`\n}\n"
+		exp := TypeExpect{Schemas: map[string]ExpSchema{"Doc" + id: {Kind: "struct",
+			Props:    map[string][]string{"t1": {"string"}, "t2": {"string"}, "t3": {"string"}, "b1": {"string"}, "b2": {"string"}, "b3": {"string"}, "s1": {"string"}, "s2": {"string"}},
+			Required: []string{"b2"},
+			Docs:     map[string]string{"t1": "first stamp", "t2": "second stamp", "t3": "", "b1": "first blob", "b2": "second blob", "b3": "", "s1": "first word", "s2": "second word"}}}}
+		b.addCase(id, "type-field-docs", decl, []scen.Method{usageMethod(id, usage, "Doc"+id)}, exp, map[string]string{"usage": usage}, []string{"time"})
+	}
+}
+
 func contains(l []string, s string) bool {
 	for _, x := range l {
 		if x == s {
@@ -473,6 +495,7 @@ func Types(tier string) (Family, map[string]TypeExpect, []MetaPair) {
 	b.graphs(tier)
 	b.leafCases(tier)
 	b.composites()
+	b.fieldDocs()
 	pairs := b.metamorphic(tier)
 	b.crossPackage()
 	return Family{Name: "types", Cases: b.cases, BaseCfg: DefaultCfg, PackSize: 60}, b.exp, pairs
